@@ -237,6 +237,13 @@ func (m *l0Machine) genVal(rt *rapid.T, r int, label string) sim.Val {
 		}
 		return m.nextTag(r)
 	}
+	if rapid.IntRange(0, 7).Draw(rt, label+".gotyped") == 0 {
+		// every Go value class of the generators (numeric widths, pointers, structs, typed slices and maps,
+		// nil slices / maps, byte slices, fixed-size arrays): what the issuing replica keeps for such a
+		// value has to be what the others decode
+		m.labels["go-typed-value"] = true
+		return genGoVal(rt, label, 2)
+	}
 	depth := 0
 	if m.cfg.Kind == sim.Document {
 		depth = 3
